@@ -92,7 +92,10 @@ class SymIO:
             # library serialises a block to memory to validate it): the buffer's
             # content is not inspected afterwards, only the fact that writing succeeded
             self._opaque = True
+            self._opaque_extra = getattr(self, "_opaque_extra", 0) + data.n  # tell() keeps counting
             return data.n
+        if getattr(self, "_opaque", False):
+            raise Unsupported("write to a scratch buffer after an opaque payload")
         items = items_of(data)
         if self._pos > len(self._items):
             self._items.extend([0] * (self._pos - len(self._items)))
@@ -104,8 +107,21 @@ class SymIO:
         self._chk()
         if n is None or (isinstance(n, int) and n < 0):
             out = self._items[self._pos:]
+        elif E.is_symint(n):
+            # a symbolic length is first classified against what is left in the buffer
+            # (negative / at least everything / strictly inside) and only then enumerated
+            rest = len(self._items) - self._pos
+            if n < 0:
+                if n == -1:
+                    out = self._items[self._pos:]
+                else:
+                    raise ValueError("read length must be non-negative or -1")
+            elif n >= rest:
+                out = self._items[self._pos:]
+            else:
+                out = self._items[self._pos:self._pos + n.__index__()]
         else:
-            n = int(n) if not E.is_symint(n) else n.__index__()
+            n = int(n)
             out = self._items[self._pos:self._pos + n]
         self._pos += len(out)
         return mkbytes(out)
@@ -128,7 +144,7 @@ class SymIO:
 
     def tell(self) -> int:
         self._chk()
-        return self._pos
+        return self._pos + getattr(self, "_opaque_extra", 0)
 
     def getvalue(self):
         self._chk()
